@@ -150,11 +150,19 @@ Proof.
           = map (sbytes m) gs) as Eq
     by (apply map_ext; intros g; unfold sbytes; rewrite map_length; reflexivity).
   rewrite Eq. unfold dec_gt. rewrite Rd. cbn [Z.eqb Pos.eqb].
-  assert (Z.of_nat m =? 0 = false) as E0 by lia. rewrite E0. rewrite Nat2Z.id.
-  rewrite <- (app_nil_r (concat _)). apply gt_series_roundtrip; [exact Hv|].
-  intros g Hg. subst m. unfold gt_max_len.
-  pose proof (proj2 (fold_max_length_ge (map (map code) gs) 0%nat) (map code g)) as Q.
-  rewrite map_length in Q. apply Q. apply in_map. exact Hg.
+  assert (Z.of_nat m =? 0 = false) as E0 by lia. rewrite E0.
+  assert (forall g, In g gs -> (length g <= m)%nat) as Hall.
+  { intros g Hg. subst m. unfold gt_max_len.
+    pose proof (proj2 (fold_max_length_ge (map (map code) gs) 0%nat) (map code g)) as Q.
+    rewrite map_length in Q. apply Q. apply in_map. exact Hg. }
+  assert (forall l, (forall g, In g l -> (length g <= m)%nat) ->
+            length (concat (map (sbytes m) l)) = (length l * m)%nat) as Hlen.
+  { induction l as [|g l IHl]; intros Hl; [reflexivity|]. cbn [map concat length].
+    rewrite app_length. rewrite sbytes_length by (apply Hl; left; reflexivity).
+    rewrite IHl by (intros g' Hg'; apply Hl; right; exact Hg'). lia. }
+  rewrite znat_id.
+  2:{ rewrite (Hlen gs Hall). destruct gs as [|g0 gs']; [subst m; cbn in Hm1; lia|]. cbn [length]. nia. }
+  rewrite <- (app_nil_r (concat _)). apply gt_series_roundtrip; [exact Hv|exact Hall].
 Qed.
 
 (* allele indices that do not fit are errors, never panics or other values *)
